@@ -30,6 +30,9 @@ def run(ctx, rep):
         wl, wo = RD.iterator_roles(fx, rep, "C03.3", impl)
         if wo:
             RD.check_without_lines(fx, rep, "C03.3", impl, wo, "C03.3")
+        if wl and wo:
+            nq = RD.check_query_readonly(fx, rep, "C03.3", impl, A.method(fx, impl + "::RemappedFrameIter", "next", trait="Iterator") + [wl, wo], "C03.3")
+            rep.floor("C03.3/query-readonly/" + impl, nq, 2, "functions holding the stored query (%s)" % impl)
     import api_rules as AR
     AR.check_frame_api(fx, rep, "C03.api")
     AR.check_mapper_constructors(fx, rep, "C03.0")
